@@ -129,6 +129,16 @@ def _pure_case(args):
             rb = [(dtb, q(j2, dtb)), (dts[3], q(j2, dts[3]))]
             out['model'].append((anchor_spec(mk(spec), dta), ra))
             out['model'].append((anchor_spec(mk(spec), dtb), rb))
+            # the second job must behave like a job built from an identical, completely separate trigger object
+            sep = build_trigger(spec)
+            if base_t is derived_fresh:
+                sep = sep.offset(TimeDelta(nanoseconds=off))
+            j3 = _get_producer(sep)
+            rc = [(dtb, q(j3, dtb)), (dts[3], q(j3, dts[3]))]
+            out['n'] += 2
+            if rc != rb:
+                out['problems'].append(f'two jobs built from one trigger object influence one another: the second job answers {rb}, a job '
+                                       f'built from an identical separate trigger answers {rc} [zone {zc.name}, {prod_sx(mk(spec))[:150]}]')
         # ---- filters: deriving a filter leaves the one it was derived from unchanged
         fa, fb, fc = gen_filter(rnd), gen_filter(rnd), gen_filter(rnd)
         for kind in ('any', 'all'):
